@@ -28,8 +28,9 @@ What is restated here, and from where (`/repo/onnxscript/_internal/`):
   (kept in the wire format; unused since the key is the `repr`).
 * `doInline` — `_inliner.instantiate` (`prefix + node.name`, `prefix + output.name`, formals ↦ actuals)
   followed by `call_inline`'s renaming: non-final outputs `_qualify_value_name(name)`, final outputs the
-  qualified `_outputs` names or `_qualify_value_name(current name)` — **including a final output that is
-  one of the caller's own values** (a function returning its input), which gets renamed in place.
+  qualified `_outputs` names or `_qualify_value_name(current name)` — only for values produced by the
+  inlined nodes (commit e7b46e0; before it a function output that is one of the caller's own values, a
+  function returning its input, was renamed in place).
 -/
 namespace OV.C18
 
@@ -222,7 +223,8 @@ def sumNodes (fs : List Frame) : Nat := (fs.map (·.nodes.length)).sum
 
 /-- `GraphBuilder._node_count` (commit e9794aa): nodes of the root graph and of every subgraph built
     through this builder tree so far.  `total = false` is the behaviour before that commit
-    (`self.graph.num_nodes()`, the builder's own graph only), kept for the refutation witness. -/
+    (`self.graph.num_nodes()`, the builder's own graph only), kept for the refutation witnesses; the same
+    flag also selects the `call_inline` output renaming before commit e7b46e0 (see `renameFinals`). -/
 def nodeCount (total : Bool) (st : St) : Nat :=
   if total then st.cur.nodes.length + sumNodes st.stack + sumNodes st.done else st.cur.nodes.length
 
@@ -293,14 +295,17 @@ def addInlined (st : St) (finals : List Nat) : List Node → St
       if nameOf s o ≠ "" ∧ o ∉ finals then renameValue s o (qualifyValue s.cur) else s) st
     addInlined (addNode st1 n) finals r
 
-def renameFinals (st : St) : List (Option Nat) → Option (List String) → St
+/-- final outputs of `call_inline`: the qualified `_outputs` names, or the re-qualified current name.
+    `guard id` = "the value was produced by the inlined nodes" (commit e7b46e0): a function output that is
+    one of the caller's own values keeps its name.  Before that commit every final output was renamed. -/
+def renameFinals (guard : Nat → Bool) (st : St) : List (Option Nat) → Option (List String) → St
   | outs, some desired =>
-    (outs.zip desired).foldl (fun s (o, d) => match o with
-      | some id => renameValue s id (fun _ => d)
+    (outs.zip desired).foldl (fun s x => match x.1 with
+      | some id => if guard id then renameValue s id (fun _ => x.2) else s
       | none => s) st
   | outs, none =>
     outs.foldl (fun s o => match o with
-      | some id => if nameOf s id ≠ "" then renameValue s id (qualifyValue s.cur) else s
+      | some id => if guard id && (nameOf s id != "") then renameValue s id (qualifyValue s.cur) else s
       | none => s) st
 
 def pushScope (st : St) (n : String) : St := { st with cur := { st.cur with scope := st.cur.scope ++ [n] } }
@@ -323,6 +328,16 @@ def outsMismatch (outs : Option (List String)) (f : Fn) : Bool :=
   | some o => o.length != f.outputs.length
   | none => false
 
+/-- clone the body, append the clones (re-qualifying non-final outputs), rename the final outputs; returns
+    the state and the values the function's outputs are mapped to. -/
+def inlineRun (total : Bool) (st0 : St) (f : Fn) (actuals : List (Option Nat)) (desired : Option (List String)) :
+    St × List (Option Nat) :=
+  let c := inlineClones total st0 f actuals
+  let finalsO := f.outputs.map (vmapGet c.2.1)
+  let st2 := addInlined c.1 (finalsO.filterMap id) c.2.2
+  let produced := c.2.2.flatMap (·.outs)
+  (renameFinals (fun id => !total || produced.contains id) st2 finalsO desired, finalsO)
+
 def doInline (total : Bool) (fns : List Fn) (st : St) (fi : Nat) (args : List Arg) (outs : Option (List String))
     (pfx : String) : St :=
   match fns[fi]? with
@@ -335,13 +350,9 @@ def doInline (total : Bool) (fns : List Fn) (st : St) (fi : Nat) (args : List Ar
     else
       let desired := outs.map (fun o => o.map (qualifyValue st.cur))
       let st0 := if pfx = "" then st else pushScope st pfx
-      let (st1, m1, nodes) := inlineClones total st0 f (resolveArgs st0 args).2
-      let finalsO := f.outputs.map (vmapGet m1)
-      let finals := finalsO.filterMap id
-      let st2 := addInlined st1 finals nodes
-      let st3 := renameFinals st2 finalsO desired
-      let st4 := if pfx = "" then st3 else popScope st3
-      { st4 with handles := st4.handles ++ finalsO }
+      let rr := inlineRun total st0 f (resolveArgs st0 args).2 desired
+      let st4 := if pfx = "" then rr.1 else popScope rr.1
+      { st4 with handles := st4.handles ++ rr.2 }
 
 def doBeginSub (st : St) (gname : String) (inputs : List String) : St :=
   let (st1, ids) := newValues st inputs
@@ -389,7 +400,7 @@ def buildWith (total : Bool) (fns : List Fn) (tr : List Item) : St := tr.foldl (
 /-- the current code (names count nodes across the whole builder tree). -/
 def build (fns : List Fn) (tr : List Item) : St := buildWith true fns tr
 
-/-- the code before commit e9794aa (per-graph counter). -/
+/-- the code before commits e9794aa (per-graph counter) and e7b46e0 (pass-through outputs renamed). -/
 def buildPrefix (fns : List Fn) (tr : List Item) : St := buildWith false fns tr
 
 /-! ## observations -/
